@@ -93,10 +93,19 @@ func (w *World) setLogging() {
 
 // New creates the session and the configured handlers (must run inside the driver task).
 func New(cfg Config) (*World, error) {
+	return NewWith(cfg, nil)
+}
+
+// NewWith is New with a step between the creation of the session and of the handlers (an
+// application re-applying its capture list at boot, before the DHCP handler loads its leases).
+func NewWith(cfg Config, pre func(w *World)) (*World, error) {
 	w := &World{Cfg: cfg, U: NewUniverse(cfg), SharedBuf: cfg.ReuseBuf, Scribble: cfg.ReuseBuf}
 	w.setLogging()
 	if err := w.newSession(); err != nil {
 		return nil, err
+	}
+	if pre != nil {
+		pre(w)
 	}
 	if err := w.newHandlers(); err != nil {
 		return nil, err
@@ -129,6 +138,20 @@ func (w *World) DHCPConfig() dhcp4.Config {
 		c.LeaseFilename = LeasePath
 	}
 	return c
+}
+
+// RestartDHCP closes the DHCP handler and constructs a new one on the same session from whatever
+// the lease file holds, optionally with another DNS server configured.
+func (w *World) RestartDHCP(flipDNS bool) error {
+	if w.DHCP != nil {
+		w.DHCP.Close()
+	}
+	if flipDNS {
+		w.Cfg.DNSAlt = !w.Cfg.DNSAlt
+	}
+	var err error
+	w.DHCP, err = w.DHCPConfig().New(w.S)
+	return err
 }
 
 func (w *World) newHandlers() (err error) {
